@@ -86,6 +86,26 @@ def run_oracles(prog, meta, sessions):
                         suffix, why = stale_owner_status(s, k, prev_nodes)
                         out.append(('C19', 'spurious-' + k + '-after-abort' + suffix, '%s: after an earlier abort, the incremental build aborted with %s although from-scratch builds of all known tasks (two orders) in the current state succeed%s' % (where, k, why)))
 
+        # ---- C06: re-execution of the same writer is never an overlap
+        if 'overlap' in kinds and s.events:
+            last = s.events[-1].split()
+            if last[0] == 'wS':
+                stk = []          # [task, resources written so far in this execution]
+                wrote = set()     # (task, resource) written anywhere in this session so far
+                for e in s.events[:-1]:
+                    f = e.split()
+                    if f[0] == 'XS': stk.append([int(f[1]), set()])
+                    elif f[0] == 'XE' and stk: stk.pop()
+                    elif f[0] == 'wS' and stk:
+                        stk[-1][1].add(f[1]); wrote.add((stk[-1][0], f[1]))
+                nd = prev_nodes.get('R' + last[1], {'ins': []})
+                ws = [src for (k, src) in nd['ins'] if k == 'W']
+                # (a second write of the same resource within one execution is the class boundary O8, not this)
+                if stk and last[1] not in stk[-1][1] and ws and all(src == 'T%d' % stk[-1][0] for src in ws) \
+                        and not any(r_ == last[1] for (t_, r_) in wrote):
+                    stk = [x[0] for x in stk]
+                    out.append(('C06', 'self-overlap', '%s: task %d re-executed and wrote R%s, whose only recorded writer is the task itself, and the build aborted with an overlapping write' % (where, stk[-1], last[1])))
+
         # ---- C01 / C19: incremental == from scratch
         if q_only and not ab and s.fresh_ops is not None and prog.kind in ('wf', 'multi'):
             fresh_ab = any('abort' in o for o in s.fresh_ops)
